@@ -5,6 +5,8 @@ import (
 	"encoding/json"
 	"fmt"
 	"os"
+	"runtime/debug"
+	"time"
 	"testing"
 
 	"verif/harness/hx"
@@ -15,6 +17,7 @@ import (
 // involved. VERIF_REPLAY_LIST names a file with one path per line; one JSON
 // line per path is printed on stdout.
 func TestReplay(t *testing.T) {
+	debug.SetMaxStack(48 << 20)
 	list := os.Getenv("VERIF_REPLAY_LIST")
 	if list == "" {
 		t.Skip("no VERIF_REPLAY_LIST")
@@ -31,7 +34,12 @@ func TestReplay(t *testing.T) {
 			continue
 		}
 		fmt.Printf("REPLAY-BEGIN %s\n", p)
+		wd := time.AfterFunc(hx.HangAfter, func() {
+			fmt.Printf("HANG replay=%s\n", p)
+			os.Exit(97)
+		})
 		check, fails, err := hx.ReplayFile(p)
+		wd.Stop()
 		rec := map[string]interface{}{"path": p, "check": check, "fails": fails}
 		if err != nil {
 			rec["error"] = err.Error()
